@@ -93,7 +93,7 @@ func c10Scenarios(tier string) []e1lib.Scenario {
 						}
 					}
 					c := forkh.Cfg{Stage: "fold", Par: par, Input: input, InCap: ic, Monoid: mo, Stop: -1}
-					out = append(out, e1lib.Scenario{Name: forkName(c), Root: func() { forkh.Scenario(c) }, Check: c10Check(c), Bound: -1, Sample: c, Sym: true, RealDone: []string{"got-eof"},
+					out = append(out, e1lib.Scenario{Name: forkName(c), Root: func() { forkh.Scenario(c) }, Check: c10Check(c), Bound: -1, Sample: c, Sym: !(c.Par == 2 && len(c.Input) <= 2), RealDone: []string{"got-eof"},
 						Nontrivial: func(outcomes, execs, states int) bool { return len(c.Input) >= 2 && c.Par >= 2 && execs > 1 }})
 				}
 			}
